@@ -241,10 +241,11 @@ def results(ctx: Any, thorough: bool) -> dict[str, Any]:
     res = {"records": recs, "seconds": round(time.time() - t0, 1), "workers": n, "from_cache": False}
     try:
         cache_dir.mkdir(parents=True, exist_ok=True)
-        for old in cache_dir.glob("roundtrip-*.json"):
-            if old.name != key and old.name.endswith(f"-{'thorough' if thorough else 'quick'}.json"):
-                old.unlink()
         cf.write_text(json.dumps(res))
+        # keep the newest few results (scratch copies analysed in parallel by the self-test each have their own digest)
+        olds = sorted(cache_dir.glob("roundtrip-*.json"), key=lambda q: q.stat().st_mtime, reverse=True)
+        for old in olds[16:]:
+            old.unlink()
     except OSError:
         pass
     return res
